@@ -1160,7 +1160,7 @@ def run_systems(ctx, chem, systems, use_gen, stats, label):
     import time
     t0 = time.time()
     jobs = [{"id": i, "db": S["db"], "text": render_input(S), "flags": ["dump"]} for i, S in enumerate(systems)]
-    res = vlib.run_inputs(jobs, timeout_each=40, workers=min(6, vlib.NCPU))
+    res = vlib.run_inputs(jobs, timeout_each=12, workers=min(6, vlib.NCPU))
     stats["t_engine_s"] += round(time.time() - t0, 1)
     t0 = time.time()
     items = []       # (system index, case dict)
@@ -1287,8 +1287,8 @@ def run(ctx):
     feat = collections.Counter()
     for S in systems:
         feat.update(features(S))
-    for b0 in range(0, n, 300):
-        run_systems(ctx, chem, systems[b0:b0 + 300], use_gen, stats, "random%d" % b0)
+    for b0 in range(0, n, 120):
+        run_systems(ctx, chem, systems[b0:b0 + 120], use_gen, stats, "random%d" % b0)
     ctx.extra["input_distribution"] = {"systems": n, "features": dict(feat), "outcomes": dict(stats)}
     ctx.trusted += ["independent parsers of RAW dumps, chemical formulas and PHASES blocks (props/c02.py)",
                     "translator/c02_step.py (clang JSON AST -> Gallina); validated on every run by using gen_stepf in the correspondence",
